@@ -205,3 +205,12 @@ Theorem C18_code_estimator_bounds_every_output : forall ws xs b xmin xmax, in_bo
   (- snd (EstGen.gen_est ws b xmin xmax) <= qdot ws xs + b <= fst (EstGen.gen_est ws b xmin xmax))%Q.
 Proof. exact EstLink.link_est_bounds_output. Qed.
 Print Assumptions C18_code_estimator_bounds_every_output.
+
+(* the auto power-of-two adjustment as /repo has it now: the fused accumulator the code reports for a kernel with an auto_po2 scale is the
+   model's, for every option combination, operand types, kernel size and shift range *)
+Theorem C18_source_fused_accumulator_is_the_model : forall dw ub w x b kops kdw mn mx,
+  gen_adjust_auto_po2 (layer_mul w x) mn mx = adjust_auto_po2 (layer_mul w x) mn mx /\
+  gen_fused_accumulator dw ub (gen_adjust_auto_po2 (gen_layer_multiplier w x) mn mx) b kops kdw =
+  layer_fused_acc w x (if dw then kdw else kops) (if ub then Some b else None) mn mx.
+Proof. intros. split; [apply link_adjust_auto_po2 | apply link_fused_accumulator]. Qed.
+Print Assumptions C18_source_fused_accumulator_is_the_model.
